@@ -832,6 +832,11 @@ class Interp:
             v = self.eval(cx, fr, st.value)
             if isinstance(v, dict) and not v:
                 tv = typed_empty_from_annotation(st.annotation)
+                hook = getattr(fr.spec, "empty_container", None)
+                if hook is not None and isinstance(st.target, ast.Name):
+                    hv = hook(cx, st.target.id, ast.unparse(st.annotation))  # the spec's model of this (empty) container
+                    if hv is not None:
+                        tv = hv
                 if tv is not None:
                     v = tv
             self.assign(cx, fr, st.target, v)
